@@ -1,59 +1,183 @@
 (* Tree.v — executable model of the syntax-tree formatting layer of
-   montepy/input_parser/syntax_node.py: the text that is written for one input is
-   [format] of its tree.  Modelled: ValueNode.format's short circuit (an unchanged value
-   echoes its token and padding; a changed value prints its new rendering, which is an
-   input of this model — the rendering itself is Model/Num.v's business), PaddingNode /
-   CommentNode / ClassifierNode / ParametersNode / GeometryTree / IsotopesNode.format (plain
-   concatenation in field order), SyntaxNode.format (skips value leaves whose value is
-   None), ListNode.format (a value without padding that is followed by another node gets a
-   one-blank padding — an in-place MUTATION of the tree, hence format is state-passing), and
-   the file writer's block structure (MCNP_Problem.write_to_file).
-   Opaque leaves (ShortcutNode, ParticleNode) carry their formatted text.  No proofs here. *)
+   montepy/input_parser/syntax_node.py and of the code that assembles the written text from it
+   (montepy/cell.py: Cell.format_for_mcnp_input, montepy/data_inputs/importance.py: the per-particle
+   trees of a cell's importance, montepy/mcnp_problem.py: write_to_file's block layout).
+
+   The text that is written for one input is [format] of its tree.  Formatting MUTATES the tree in the
+   source (ListNode.format repairs missing padding, ValueNode.format fixes the field width it reverse
+   engineers from the token the first time a changed value is written, ParticleNode.format normalises the
+   order of its particles), so [format] is state passing: it returns the text and the tree it leaves.
+
+   Modelled:
+     ValueNode.format         short circuit for an unchanged value (token + padding); for a changed value the
+                              field logic: left-justify the new rendering to value_length, keep / add / drop
+                              the separating blank, then the rest of the padding.  The rendering of the new
+                              value itself ([edit], "temp" in the source) is an INPUT of this model: how a
+                              number is spelled is Model/Num.v's business (property C05)
+     ValueNode.value setter   _check_if_needs_end_padding (a value that was None gets a blank)
+     PaddingNode / CommentNode / ClassifierNode / ParametersNode / GeometryTree / IsotopesNode.format
+                              concatenation in field order
+     SyntaxNode.format        skips value leaves whose value is None
+     ListNode.format          padding repair of a value followed by another node; a blank after a shortcut
+                              that does not end in white space and is not the last node
+     ParticleNode.format      ':' + particles in the remembered order, stragglers appended, removed ones dropped
+     Cell.format_for_mcnp_input  the parameter loop with cleanup_last_line and the removal of a dangling '&'
+     Importance               one tree shared by the particles of 'imp:n,p=1'; __setitem__ with _unshare_tree
+     MCNP_Problem.write_to_file  block layout
+   Opaque (carry their formatted text): ShortcutNode (property C08).  NOT modelled: the LALR parsers and the
+   object constructors (hypothesis [as_parsed] / [Lossless], validated per case by the correspondence), line
+   wrapping (Model/Wrap.v, property C10).  No proofs here. *)
 From Coq Require Import List String Ascii Arith Bool Lia.
 From MPV Require Import Model.Wire.
 Import ListNotations.
 Open Scope string_scope.
 
+(* ------------------------------------------------------------------ *)
+(* strings *)
+Definition nl : string := String (ascii_of_nat 10) "".
+
+Definition is_ws (a : ascii) : bool :=                      (* str.isspace() / what str.strip() removes *)
+  let n := nat_of_ascii a in orb (Nat.eqb n 32) (andb (Nat.leb 9 n) (Nat.leb n 13)).
+
+Fixpoint all_ws (s : string) : bool :=                      (* len(s.strip()) == 0 *)
+  match s with EmptyString => true | String a r => andb (is_ws a) (all_ws r) end.
+
+Fixpoint last_char (s : string) : option ascii :=
+  match s with
+  | EmptyString => None
+  | String a EmptyString => Some a
+  | String _ r => last_char r
+  end.
+
+Definition ends_ws (s : string) : bool :=                   (* s and s[-1].isspace() *)
+  match last_char s with Some a => is_ws a | None => false end.
+
+Fixpoint spaces (n : nat) : string :=
+  match n with 0 => "" | Datatypes.S k => String " "%char (spaces k) end.
+
+Definition ljust (s : string) (w : nat) : string := s ++ spaces (w - String.length s).   (* "{s:<{w}}" *)
+
+(* ------------------------------------------------------------------ *)
+(* trees *)
+Inductive piece := PS (s : string) | PC (s : string).       (* PaddingNode.nodes: str | CommentNode *)
+
+Definition piece_text (p : piece) : string := match p with PS s | PC s => s end.
+Definition pad_text (ps : list piece) : string := String.concat "" (map piece_text ps).
+Definition opad_text (o : option (list piece)) : string := match o with Some ps => pad_text ps | None => "" end.
+
+(* PaddingNode.is_space(i) *)
+Definition is_space_piece (p : piece) : bool :=
+  match p with PS s => andb (all_ws s) (negb (String.eqb s nl)) | PC _ => false end.
+
 Inductive node :=
-| NV (tok : string) (pad : option string) (never_pad : bool) (has_value : bool) (edit : option string)
-| NP (text : string)
-| NO (text : string)
-| NS (children : list node)      (* SyntaxNode: dict in insertion order *)
-| NL (children : list node)      (* ListNode *)
-| NC (children : list node).     (* any other container: concatenation in field order *)
+| NV (tok : string) (pad : option (list piece)) (never_pad : bool) (has_value : bool)
+     (edit : option string)          (* Some temp: the value changed, temp is the rendering of the new value *)
+     (vlen : option nat)             (* _formatter["value_length"] once _reverse_engineer_formatting has run *)
+| NP (ps : list piece)
+| NO (text : string)                 (* opaque leaf *)
+| NK (text : string)                 (* ShortcutNode: opaque, but ListNode.format treats it specially *)
+| NT (upper : bool) (order : list string) (parts : list string)   (* ParticleNode: _order, particles (sorted) *)
+| NS (children : list node)          (* SyntaxNode: dict in insertion order *)
+| NL (children : list node)          (* ListNode *)
+| NC (children : list node).         (* any other container: concatenation in field order *)
 
-Definition opt_str (o : option string) : string := match o with Some s => s | None => "" end.
+(* str.upper() / str.lower() on ASCII letters *)
+Definition case_char (up : bool) (a : ascii) : ascii :=
+  let n := nat_of_ascii a in
+  if up then (if andb (Nat.leb 97 n) (Nat.leb n 122) then ascii_of_nat (n - 32) else a)
+  else (if andb (Nat.leb 65 n) (Nat.leb n 90) then ascii_of_nat (n + 32) else a).
+Fixpoint case_str (up : bool) (s : string) : string :=
+  match s with EmptyString => EmptyString | String a r => String (case_char up a) (case_str up r) end.
 
-(* the original text the tree was parsed from *)
+(* ParticleNode.format: ':' and the particle designators in upper or lower case *)
+Definition particles_text (upper : bool) (ps : list string) : string :=
+  ":" ++ join "," (map (case_str upper) ps).
+
 Fixpoint flatten (n : node) : string :=
   match n with
-  | NV tok pad _ _ _ => tok ++ opt_str pad
-  | NP t => t
+  | NV tok pad _ _ _ _ => tok ++ opad_text pad
+  | NP ps => pad_text ps
   | NO t => t
+  | NK t => t
+  | NT up order _ => particles_text up order
   | NS cs | NL cs | NC cs => String.concat "" (map flatten cs)
   end.
 
 Definition is_P (n : node) : bool := match n with NP _ => true | _ => false end.
 
-(* ListNode.format's padding repair on child i, given the next sibling (if any) *)
+(* ---- ValueNode.format *)
+Definition value_length (tok : string) (pad : option (list piece)) : nat :=
+  String.length tok +
+  match pad with
+  | Some (p0 :: _) => if is_space_piece p0 then String.length (piece_text p0) else 0
+  | _ => 0
+  end.
+
+(* "a saving space later on": the second padding element is blank or a line break *)
+Definition saving_space (rest : list piece) : bool :=
+  match rest with
+  | PS s :: _ => orb (andb (all_ws s) (negb (String.eqb s nl))) (String.eqb s nl)
+  | _ => false
+  end.
+
+Definition fmt_changed (temp : string) (vl : nat) (pad : option (list piece)) : string :=
+  match pad with
+  | Some (p0 :: rest) =>
+      if is_space_piece p0 then
+        ljust temp vl
+        ++ (if andb (Nat.leb vl (String.length temp)) (negb (saving_space rest)) then " " else "")
+        ++ pad_text rest
+      else ljust temp vl ++ pad_text (p0 :: rest)
+  | _ => ljust temp vl
+  end.
+
+Definition eff_vlen (tok : string) (pad : option (list piece)) (vl : option nat) : nat :=
+  match vl with Some v => v | None => value_length tok pad end.
+
+Definition fmt_leaf (tok : string) (pad : option (list piece)) (hv : bool) (ed : option string)
+           (vl : option nat) : string :=
+  match ed with
+  | None => tok ++ opad_text pad
+  | Some temp => if hv then fmt_changed temp (eff_vlen tok pad vl) pad else ""
+  end.
+
+(* the formatter state after a format: a changed value that is written fixes its field width *)
+Definition vlen_after (tok : string) (pad : option (list piece)) (hv : bool) (ed : option string)
+           (vl : option nat) : option nat :=
+  match ed with
+  | Some _ => if hv then Some (eff_vlen tok pad vl) else vl
+  | None => vl
+  end.
+
+Definition fmt_V (tok : string) (pad : option (list piece)) (np hv : bool) (ed : option string) (vl : option nat)
+  : string * node :=
+  (fmt_leaf tok pad hv ed vl, NV tok pad np hv ed (vlen_after tok pad hv ed vl)).
+
+(* ---- ListNode.format's padding repair on child i, given the next sibling (if any) *)
 Definition padfix (n : node) (next : option node) : node :=
   match n, next with
-  | NV tok None false hv ed, Some nx => if is_P nx then n else NV tok (Some " ") false hv ed
+  | NV tok None false hv ed vl, Some nx => if is_P nx then n else NV tok (Some [PS " "]) false hv ed vl
   | _, _ => n
   end.
 
-Definition fmt_leaf (tok : string) (pad : option string) (ed : option string) : string :=
-  match ed with
-  | None => tok ++ opt_str pad
-  | Some r => r
-  end.
+(* ---- ParticleNode._particles_sorted: remembered order without the removed ones, then the new ones *)
+Definition mem_str (x : string) (l : list string) : bool := existsb (String.eqb x) l.
+Definition particles_sorted (order parts : list string) : list string :=
+  filter (fun p => mem_str p parts) order ++ filter (fun p => negb (mem_str p order)) parts.
+
+(* ---- ListNode.format: a shortcut that is not the last node is followed by white space *)
+Definition shortcut_sep (text : string) (last : bool) : string :=
+  if last then "" else if String.eqb text "" then "" else if ends_ws text then "" else " ".
 
 (* format : text * tree-after-format *)
 Fixpoint format (n : node) : string * node :=
   match n with
-  | NV tok pad np hv ed => (fmt_leaf tok pad ed, n)
-  | NP t => (t, n)
+  | NV tok pad np hv ed vl => fmt_V tok pad np hv ed vl
+  | NP ps => (pad_text ps, n)
   | NO t => (t, n)
+  | NK t => (t, n)
+  | NT up order parts =>
+      let o := particles_sorted order parts in (particles_text up o, NT up o parts)
   | NS cs =>
       let fix go (l : list node) : string * list node :=
         match l with
@@ -61,7 +185,7 @@ Fixpoint format (n : node) : string * node :=
         | x :: r =>
             let (sr, r') := go r in
             match x with
-            | NV _ _ _ false _ => (sr, x :: r')            (* value is None: not printed *)
+            | NV _ _ _ false _ _ => (sr, x :: r')          (* value is None: not printed *)
             | _ => let (sx, x') := format x in (sx ++ sr, x' :: r')
             end
         end in
@@ -73,11 +197,13 @@ Fixpoint format (n : node) : string * node :=
         | x :: r =>
             let (sr, r') := go r in
             match x with
-            | NV tok pad np hv ed =>           (* a leaf: format is not recursive *)
+            | NV _ _ _ _ _ _ =>                 (* a leaf: format is not recursive *)
                 match padfix x (hd_error r) with
-                | NV tok1 pad1 np1 hv1 ed1 as x1 => (fmt_leaf tok1 pad1 ed1 ++ sr, x1 :: r')
+                | NV tok1 pad1 np1 hv1 ed1 vl1 =>
+                    let (sx, x') := fmt_V tok1 pad1 np1 hv1 ed1 vl1 in (sx ++ sr, x' :: r')
                 | x1 => (sr, x1 :: r')         (* unreachable: padfix keeps a leaf a leaf *)
                 end
+            | NK t => (t ++ shortcut_sep t (match r with [] => true | _ => false end) ++ sr, x :: r')
             | _ => let (sx, x') := format x in (sx ++ sr, x' :: r')
             end
         end in
@@ -97,38 +223,51 @@ Fixpoint format (n : node) : string * node :=
 (* no leaf carries an edit *)
 Fixpoint unedited (n : node) : bool :=
   match n with
-  | NV _ _ _ _ ed => match ed with None => true | Some _ => false end
-  | NP _ | NO _ => true
+  | NV _ _ _ _ ed _ => match ed with None => true | Some _ => false end
+  | NP _ | NO _ | NK _ | NT _ _ _ => true
   | NS cs | NL cs | NC cs => forallb unedited cs
   end.
 
-(* the tree is "as parsed": every value that is printed has a value, and no ListNode child needs
-   the padding repair (true of every parsed tree: checked per case by the correspondence) *)
+Definition all_in (l m : list string) : bool := forallb (fun x => mem_str x m) l.
+
+(* the tree is "as parsed": a value that is None in a SyntaxNode has no text, no ListNode child needs the
+   padding repair, a shortcut inside a list is followed by white space, a ParticleNode lists exactly its
+   particles (true of every parsed tree: checked per case by the correspondence) *)
 Fixpoint as_parsed (n : node) : bool :=
   match n with
-  | NV _ _ _ _ _ | NP _ | NO _ => true
+  | NV _ _ _ _ _ _ | NP _ | NO _ | NK _ => true
+  | NT _ order parts => andb (all_in order parts) (all_in parts order)
   | NS cs =>
-      forallb (fun x => match x with NV tok pad _ false _ => String.eqb (tok ++ opt_str pad) "" | _ => as_parsed x end) cs
+      forallb (fun x => match x with
+                        | NV tok pad _ false _ _ => String.eqb (tok ++ opad_text pad) ""
+                        | _ => as_parsed x end) cs
   | NL cs =>
       (fix go (l : list node) : bool :=
          match l with
          | [] => true
          | x :: r => andb (andb (as_parsed x)
                         (match x, r with
-                         | NV _ None false _ _, nx :: _ => is_P nx
+                         | NV _ None false _ _ _, nx :: _ => is_P nx
+                         | NK t, _ :: _ => orb (String.eqb t "") (ends_ws t)
                          | _, _ => true
                          end)) (go r)
          end) cs
   | NC cs => forallb as_parsed cs
   end.
 
-(* editing the leaf at a path (list of child indices): the new rendering is [r] *)
+(* ---- editing the leaf at a path (list of child indices): the new rendering is [r].
+   ValueNode.value setter: a value that was None gets a blank after it unless it may never be padded *)
+Definition set_value (n : node) (r : string) : node :=
+  match n with
+  | NV tok pad np hv _ vl =>
+      let pad' := match pad, np, hv with None, false, false => Some [PS " "] | _, _, _ => pad end in
+      NV tok pad' np true (Some r) vl
+  | _ => n
+  end.
+
 Fixpoint set_leaf (path : list nat) (r : string) (n : node) {struct path} : node :=
   match path with
-  | [] => match n with
-          | NV tok pad np hv _ => NV tok pad np true (Some r)
-          | _ => n
-          end
+  | [] => set_value n r
   | i :: p =>
       let upd := fix upd (l : list node) (k : nat) : list node :=
                    match l, k with
@@ -144,16 +283,227 @@ Fixpoint set_leaf (path : list nat) (r : string) (n : node) {struct path} : node
       end
   end.
 
-(* the text of the leaf at a path in the formatted output, with what precedes and follows it:
-   used to state locality *)
 Fixpoint leaf_at (path : list nat) (n : node) : option node :=
   match path with
-  | [] => match n with NV _ _ _ _ _ => Some n | _ => None end
+  | [] => match n with NV _ _ _ _ _ _ => Some n | _ => None end
   | i :: p => match n with
               | NS cs | NL cs | NC cs => match nth_error cs i with Some c => leaf_at p c | None => None end
               | _ => None
               end
   end.
+
+(* a program of edits, applied in order *)
+Definition apply_edits (es : list (list nat * string)) (n : node) : node :=
+  fold_left (fun t e => set_leaf (fst e) (snd e) t) es n.
+
+(* ---- a problem as the list of the trees of its inputs; an edit names the input and the leaf *)
+Definition format_all (cards : list node) : list string := map (fun c => fst (format c)) cards.
+
+Fixpoint edit_card (cards : list node) (k : nat) (path : list nat) (r : string) : list node :=
+  match cards, k with
+  | [], _ => []
+  | c :: rest, 0 => set_leaf path r c :: rest
+  | c :: rest, Datatypes.S k' => c :: edit_card rest k' path r
+  end.
+
+Definition apply_card_edits (es : list (nat * list nat * string)) (cards : list node) : list node :=
+  fold_left (fun cs e => edit_card cs (fst (fst e)) (snd (fst e)) (snd e)) es cards.
+
+(* ------------------------------------------------------------------ *)
+(* Cell.format_for_mcnp_input: the parameter loop *)
+
+(* the last line of str.splitlines(): the text after the last line break, or, when the text ends with a
+   line break, the line before it *)
+Fixpoint last_line_aux (s : string) (cur prev : string) (fresh : bool) : string :=
+  match s with
+  | EmptyString => if fresh then prev else cur
+  | String a r =>
+      if Nat.eqb (nat_of_ascii a) 10 then last_line_aux r "" cur true
+      else last_line_aux r (cur ++ String a "") prev false
+  end.
+Definition last_line (s : string) : string := last_line_aux s "" "" false.
+
+Fixpoint has_char (c : ascii) (s : string) : bool :=
+  match s with EmptyString => false | String a r => orb (Ascii.eqb a c) (has_char c r) end.
+
+Fixpoint lstrip_ws (s : string) : string :=
+  match s with String a r => if is_ws a then lstrip_ws r else s | EmptyString => EmptyString end.
+
+Fixpoint rstrip_ws (s : string) : string :=
+  match s with
+  | EmptyString => EmptyString
+  | String a r => let r' := rstrip_ws r in
+                  match r' with EmptyString => if is_ws a then EmptyString else String a EmptyString
+                           | _ => String a r' end
+  end.
+
+Definition is_c (a : ascii) : bool := orb (Ascii.eqb a "c"%char) (Ascii.eqb a "C"%char).
+
+(* montepy.utilities.is_comment on a line without a line break *)
+Definition is_comment_line (line : string) : bool :=
+  let start := substring 0 6 line in
+  let l := lstrip_ws line in
+  orb (andb (negb (String.eqb start ""))
+            (match l with String a (String b _) => andb (is_c a) (Ascii.eqb b " "%char) | _ => false end))
+      (match start with String a EmptyString => is_c a | _ => false end).
+
+Definition ends_amp (line : string) : bool :=               (* line.rstrip().endswith("&") *)
+  match last_char (rstrip_ws line) with Some a => Ascii.eqb a "&"%char | None => false end.
+
+Definition ends_nl (s : string) : bool :=
+  match last_char s with Some a => Nat.eqb (nat_of_ascii a) 10 | None => false end.
+
+Definition cont5 : string := "     ".
+
+Definition cleanup_last_line (ret : string) : string :=
+  let ll := last_line ret in
+  if orb (is_comment_line ll) (has_char "$"%char ll) then
+    (if ends_nl ret then ret ++ cont5 else ret ++ nl ++ cont5)
+  else if ends_amp ll then ret ++ nl ++ cont5
+  else if ends_ws ll then ret else ret ++ " ".     (* last_line[-1].isspace(); an empty last line cannot occur *)
+
+(* the parts of a cell in the order of its tree: the nodes before the parameters are formatted as they are,
+   every parameter after cleanup_last_line; a modifier contributes the text of its own object *)
+Inductive cpart :=
+| CNode (n : node)
+| CParam (n : node)
+| CMod (text : string).
+
+Fixpoint cell_loop (parts : list cpart) (ret : string) : string :=
+  match parts with
+  | [] => ret
+  | CNode n :: r => cell_loop r (ret ++ fst (format n))
+  | CParam n :: r => cell_loop r (cleanup_last_line ret ++ fst (format n))
+  | CMod t :: r => cell_loop r (cleanup_last_line ret ++ t)
+  end.
+
+(* a continuation marker on the last line of data would make the next input a part of this one *)
+Fixpoint split_nl_aux (s cur : string) : list string :=
+  match s with
+  | EmptyString => [cur]
+  | String a r => if Nat.eqb (nat_of_ascii a) 10 then cur :: split_nl_aux r "" else split_nl_aux r (cur ++ String a "")
+  end.
+Definition split_nl (s : string) : list string := split_nl_aux s "".      (* s.split("\n") *)
+
+Fixpoint drop_last_char (s : string) : string :=
+  match s with
+  | EmptyString => EmptyString
+  | String _ EmptyString => EmptyString
+  | String a r => String a (drop_last_char r)
+  end.
+
+(* lines in REVERSE order: the first line that is data loses its trailing '&' *)
+Fixpoint drop_amp_rev (rl : list string) : list string :=
+  match rl with
+  | [] => []
+  | l :: r =>
+      if andb (negb (all_ws l)) (negb (is_comment_line l)) then
+        (if ends_amp l then drop_last_char (rstrip_ws l) else l) :: r
+      else l :: drop_amp_rev r
+  end.
+
+Definition drop_dangling_amp (ret : string) : string :=
+  join nl (rev (drop_amp_rev (rev (split_nl ret)))).
+
+Definition cell_text (parts : list cpart) : string := drop_dangling_amp (cell_loop parts "").
+
+(* ------------------------------------------------------------------ *)
+(* Importance of one cell: Importance._particle_importances maps a particle to a syntax tree; the particles
+   of one parameter 'imp:n,p=1' are mapped to ONE tree.  A tree is abstracted to the particles of its
+   classifier and the text of its value. *)
+Record imp_tree := { it_parts : list string; it_value : string }.
+Record imp_state := { trees : list imp_tree; owner : list (string * nat) }.   (* particle -> index in trees *)
+
+Fixpoint lookup (p : string) (o : list (string * nat)) : option nat :=
+  match o with
+  | [] => None
+  | (q, i) :: r => if String.eqb p q then Some i else lookup p r
+  end.
+
+Definition imp_get (st : imp_state) (p : string) : option string :=
+  match lookup p (owner st) with
+  | Some i => option_map it_value (nth_error (trees st) i)
+  | None => None
+  end.
+
+Fixpoint set_nth {A} (l : list A) (i : nat) (x : A) : list A :=
+  match l, i with
+  | [], _ => []
+  | _ :: r, 0 => x :: r
+  | y :: r, Datatypes.S k => y :: set_nth r k x
+  end.
+
+Definition shares (st : imp_state) (p : string) (i : nat) : bool :=
+  existsb (fun qi => andb (negb (String.eqb (fst qi) p)) (Nat.eqb (snd qi) i)) (owner st).
+
+(* _unshare_tree rebuilds the dict: the particle gets its new tree (index [new]) directly before the first
+   particle of the tree [i] it was split from, and its old entry is dropped *)
+Fixpoint set_owner (o : list (string * nat)) (p : string) (i new : nat) (placed : bool) : list (string * nat) :=
+  match o with
+  | [] => []
+  | (q, j) :: r =>
+      let here := andb (Nat.eqb j i) (negb placed) in
+      ((if here then [(p, new)] else []) ++ (if String.eqb p q then [] else [(q, j)])
+       ++ set_owner r p i new (orb placed here))%list
+  end.
+
+(* the code before 11534b6: the value node of the (possibly shared) tree is overwritten *)
+Definition imp_set_old (st : imp_state) (p v : string) : imp_state :=
+  match lookup p (owner st) with
+  | Some i => match nth_error (trees st) i with
+              | Some t => {| trees := set_nth (trees st) i {| it_parts := it_parts t; it_value := v |};
+                             owner := owner st |}
+              | None => st
+              end
+  | None => st
+  end.
+
+(* the current code: _unshare_tree gives the particle a tree of its own first *)
+Definition imp_set (st : imp_state) (p v : string) : imp_state :=
+  match lookup p (owner st) with
+  | Some i =>
+      match nth_error (trees st) i with
+      | Some t =>
+          if shares st p i then
+            let t_old := {| it_parts := filter (fun q => negb (String.eqb q p)) (it_parts t);
+                            it_value := it_value t |} in
+            let t_new := {| it_parts := [p]; it_value := v |} in
+            {| trees := (set_nth (trees st) i t_old ++ [t_new])%list;
+               owner := set_owner (owner st) p i (List.length (trees st)) false |}
+          else
+            {| trees := set_nth (trees st) i {| it_parts := it_parts t; it_value := v |};
+               owner := owner st |}
+      | None => st
+      end
+  | None => st
+  end.
+
+(* Importance._format_tree in a cell: the trees in the order of the dict, each one once *)
+Fixpoint written_idx (o : list (string * nat)) (seen : list nat) : list nat :=
+  match o with
+  | [] => []
+  | (_, i) :: r => if existsb (Nat.eqb i) seen then written_idx r seen else i :: written_idx r (i :: seen)
+  end.
+Definition imp_written (st : imp_state) : list imp_tree :=
+  flat_map (fun i => match nth_error (trees st) i with Some t => [t] | None => [] end)
+           (written_idx (owner st) []).
+
+(* what the written parameters 'imp:<parts>=<value>' say about a particle: the first tree that lists it *)
+Fixpoint imp_denote (ts : list imp_tree) (p : string) : option string :=
+  match ts with
+  | [] => None
+  | t :: r => if mem_str p (it_parts t) then Some (it_value t) else imp_denote r p
+  end.
+
+(* owner and classifier particles agree: particle p is owned by tree i iff tree i lists p, and no particle is
+   listed by two trees *)
+Definition imp_wf (st : imp_state) : Prop :=
+  (forall p i, lookup p (owner st) = Some i ->
+     exists t, nth_error (trees st) i = Some t /\ mem_str p (it_parts t) = true) /\
+  (forall p i j t u, nth_error (trees st) i = Some t -> nth_error (trees st) j = Some u ->
+     mem_str p (it_parts t) = true -> mem_str p (it_parts u) = true -> i = j) /\
+  (forall p i t, nth_error (trees st) i = Some t -> mem_str p (it_parts t) = true ->
+     lookup p (owner st) = Some i).
 
 (* ------------------------------------------------------------------ *)
 (* the file writer: message, title, three blocks each ended by one blank line, child cards of the
@@ -176,8 +526,19 @@ Fixpoint split_blocks (ls : list string) (cur : list string) : list (list string
 
 (* ------------------------------------------------------------------ *)
 (* wire: prefix notation, fields separated by blanks:
-     V <tokhex|-> <N|padhex|-> <np> <hv> <-|edithex>   P <hex|->   O <hex|->   S n ...   L n ...   C n ...  *)
+     V <tokhex|-> <N|pieces> <np> <hv> <-|Ehex> <N|nat>     pieces: comma separated s<hex>|c<hex>, "-" = no piece
+     P <pieces>   O <hex|->   K <hex|->   T <0|1> <order: comma separated hex|-> <parts>
+     S n ...   L n ...   C n ...  *)
 Definition unhex (s : string) : string := if String.eqb s "-" then "" else hex_decode s.
+
+Definition parse_piece (w : string) : option piece :=
+  match w with
+  | String "s"%char h => Some (PS (hex_decode h))
+  | String "c"%char h => Some (PC (hex_decode h))
+  | _ => None
+  end.
+Definition parse_pieces (w : string) : option (list piece) := parse_list parse_piece w.
+Definition parse_strs (w : string) : option (list string) := parse_list (fun h => Some (hex_decode h)) w.
 
 Fixpoint parse_nodes (fuel : nat) (ws : list string) (k : nat) : option (list node * list string) :=
   match k with
@@ -187,15 +548,30 @@ Fixpoint parse_nodes (fuel : nat) (ws : list string) (k : nat) : option (list no
       | 0 => None
       | Datatypes.S f =>
           match ws with
-          | "V" :: tok :: pad :: np :: hv :: ed :: rest =>
-              let n := NV (unhex tok) (if String.eqb pad "N" then None else Some (unhex pad))
-                          (String.eqb np "1") (String.eqb hv "1")
-                          (if String.eqb ed "-" then None else Some (unhex (substring 1 (String.length ed) ed))) in
-              match parse_nodes f rest k' with Some (ns, rest') => Some (n :: ns, rest') | None => None end
+          | "V" :: tok :: pad :: np :: hv :: ed :: vl :: rest =>
+              match (if String.eqb pad "N" then Some None else option_map Some (parse_pieces pad)),
+                    (if String.eqb vl "N" then Some None else option_map Some (parse_nat vl)) with
+              | Some pad', Some vl' =>
+                  let n := NV (unhex tok) pad' (String.eqb np "1") (String.eqb hv "1")
+                              (if String.eqb ed "-" then None else Some (unhex (substring 1 (String.length ed) ed)))
+                              vl' in
+                  match parse_nodes f rest k' with Some (ns, rest') => Some (n :: ns, rest') | None => None end
+              | _, _ => None
+              end
           | "P" :: t :: rest =>
-              match parse_nodes f rest k' with Some (ns, rest') => Some (NP (unhex t) :: ns, rest') | None => None end
+              match parse_pieces t, parse_nodes f rest k' with
+              | Some ps, Some (ns, rest') => Some (NP ps :: ns, rest')
+              | _, _ => None
+              end
           | "O" :: t :: rest =>
               match parse_nodes f rest k' with Some (ns, rest') => Some (NO (unhex t) :: ns, rest') | None => None end
+          | "K" :: t :: rest =>
+              match parse_nodes f rest k' with Some (ns, rest') => Some (NK (unhex t) :: ns, rest') | None => None end
+          | "T" :: up :: order :: parts :: rest =>
+              match parse_strs order, parse_strs parts, parse_nodes f rest k' with
+              | Some o, Some p, Some (ns, rest') => Some (NT (String.eqb up "1") o p :: ns, rest')
+              | _, _, _ => None
+              end
           | tag :: cnt :: rest =>
               match parse_nat cnt with
               | Some c =>
@@ -217,10 +593,72 @@ Fixpoint parse_nodes (fuel : nat) (ws : list string) (k : nat) : option (list no
       end
   end.
 
+Fixpoint parse_cparts (fuel : nat) (ws : list string) : option (list cpart) :=
+  match fuel with
+  | 0 => None
+  | Datatypes.S f =>
+      match ws with
+      | [] => Some []
+      | "M" :: t :: rest => option_map (cons (CMod (unhex t))) (parse_cparts f rest)
+      | "N" :: rest =>
+          match parse_nodes (Datatypes.S (List.length rest)) rest 1 with
+          | Some ([n], rest') => option_map (cons (CNode n)) (parse_cparts f rest')
+          | _ => None
+          end
+      | "R" :: rest =>
+          match parse_nodes (Datatypes.S (List.length rest)) rest 1 with
+          | Some ([n], rest') => option_map (cons (CParam n)) (parse_cparts f rest')
+          | _ => None
+          end
+      | _ => None
+      end
+  end.
+
+Definition show_imp (st : imp_state) : string :=
+  join ";" (map (fun t => join "," (it_parts t) ++ "=" ++ it_value t) (imp_written st)).
+
+Definition parse_imp_tree (w : string) : option imp_tree :=
+  match split_on "="%char w with
+  | [ps; v] => Some {| it_parts := split_on ","%char ps; it_value := v |}
+  | _ => None
+  end.
+
+Fixpoint index_of (p : string) (ts : list imp_tree) (i : nat) : option nat :=
+  match ts with
+  | [] => None
+  | t :: r => if mem_str p (it_parts t) then Some i else index_of p r (Datatypes.S i)
+  end.
+
+Definition imp_of_trees (ts : list imp_tree) : imp_state :=
+  {| trees := ts;
+     owner := flat_map (fun t => flat_map (fun p => match index_of p ts 0 with Some i => [(p, i)] | None => [] end)
+                                          (it_parts t)) ts |}.
+
+Fixpoint imp_run (st : imp_state) (ops : list string) : imp_state :=
+  match ops with
+  | [] => st
+  | w :: r => match split_on "="%char w with
+              | [p; v] => imp_run (imp_set st p v) r
+              | _ => st
+              end
+  end.
+
 (* request: "fmt <tree>" -> hex(format) ; "fmt2 <tree>" -> hex(format of the tree left by format) ;
-            "flat <tree>" -> hex(flatten) ; "parsed <tree>" -> 0/1 *)
+            "flat <tree>" -> hex(flatten) ; "parsed <tree>" -> 0/1 ;
+            "cell <parts>" -> hex(text assembled by the parameter loop) ;
+            "imp <tree;tree;...> <p=v> ..." -> the trees after the edits, e.g. "n=2;p=1" *)
 Definition run_Tree (req : string) : string :=
   match words req with
+  | "cell" :: ws =>
+      match parse_cparts (Datatypes.S (List.length ws)) ws with
+      | Some parts => hex_encode (cell_text parts)
+      | None => "parse:cell"
+      end
+  | "imp" :: ts :: ops =>
+      match map_opt parse_imp_tree (split_on ";"%char ts) with
+      | Some trs => show_imp (imp_run (imp_of_trees trs) ops)
+      | None => "parse:imp"
+      end
   | cmd :: ws =>
       match parse_nodes (Datatypes.S (List.length ws)) ws 1 with
       | Some ([t], []) =>
